@@ -5,10 +5,12 @@
 #   Real graphs (function-node chains with unlimited / serial / limited / lightweight / rejecting nodes, broadcast fan-out with a second source,
 #   a throwing body followed by a second wait and reset, an input_node source, an async_node whose gateway is completed from a thread outside
 #   the arena under reserve_wait / release_wait, a limiter feedback cycle) with 2-3 external putters and an arena thread that executes graph tasks from the start are validated by TLC (TraceFlow).
-import vlib, flowlib
+import vlib, flowlib, contlib
 SCEN = ['chain0', 'chain1', 'chainR', 'fan', 'cancel', 'input', 'async', 'limitc1', 'limitc2', 'twolim']
 
 
 def run(res, tier, seed):
     thorough = tier != 'quick'
+    # the aggregator that serialises every function_input / buffer operation: AggrCore replayed edge-complete on the real template
+    contlib.replay_aggregator(res, 'C14', [('AggrCore_2.cfg', 2, 2)] + ([('AggrCore_3.cfg', 3, 1)] if thorough else []))
     flowlib.run_scenarios(res, 'C14', SCEN, 150 if not thorough else 3000, seed)
